@@ -230,7 +230,7 @@ func (cs *connServer) run(chunks [][]byte) *connResult {
 		}()
 		res.ServeErr = cs.s.ServeConn(conn)
 	}()
-	waitTimeout(&cs.hjWG, 2*time.Second)
+	waitTimeout(&cs.hjWG, 10*time.Second) // only a hijack handler that never returns waits this long
 	if res.HijackConn != nil && cs.cfg.KeepHijacked {
 		// the application keeps using the hijacked connection after the hijack handler returned
 		time.Sleep(5 * time.Millisecond)
